@@ -70,8 +70,11 @@ type Fault struct {
 	// as an HTTP date.
 	RetryAfter int  `json:"retry_after"`
 	RetryDate  bool `json:"retry_date,omitempty"`
-	DelayMs    int  `json:"delay_ms,omitempty"` // slow reply
-	NoNonce    bool `json:"no_nonce,omitempty"` // reply without Replay-Nonce
+	// Bare (5xx): the reply carries no problem document, as a gateway in front
+	// of the CA would send it (plain text body)
+	Bare    bool `json:"bare,omitempty"`
+	DelayMs int  `json:"delay_ms,omitempty"` // slow reply
+	NoNonce bool `json:"no_nonce,omitempty"` // reply without Replay-Nonce
 }
 
 // OrderSpec describes a pre-seeded order.
@@ -123,6 +126,7 @@ func genFault(r *mrand.Rand, dens int) Fault {
 		if r.IntN(3) == 0 {
 			f.RetryAfter = r.IntN(4)
 		}
+		f.Bare = r.IntN(3) == 0
 	case 5, 6:
 		f.Kind = "429"
 		if r.IntN(4) != 0 {
@@ -745,6 +749,11 @@ func (ca *ca) applyFault(f Fault, method string, rp *reply, seq int, simNow time
 	}
 	rt.Fault("reply-" + kind)
 	out.hdr.Set("Content-Type", "application/problem+json")
+	if kind == "5xx" && f.Bare {
+		out.body = []byte(rec.marker)
+		out.hdr.Set("Content-Type", "text/plain")
+		rt.Fault("reply-5xx-without-problem-document")
+	}
 	if f.RetryAfter >= 0 && (kind == "5xx" || kind == "429") {
 		rec.retryHdr = true
 		if f.RetryDate {
